@@ -59,7 +59,10 @@ def run(sh):
         rng = random.Random(core.stable_int(sh.seed, 'C01', i))
         decimal = i % 3 == 0
         bigint = i % 12 == 5
-        ops = engine_evq.random_ops(rng, decimal=decimal, aim_pauses=decimal or bigint, bigint=bigint)
+        mass = i % 40 == 9
+        ops = engine_evq.random_ops(rng, decimal=decimal, aim_pauses=decimal or bigint, bigint=bigint, mass=mass)
+        if mass:
+            sh.count('mass_sequences')
         if bigint:
             sh.count('integer_clock_sequences')
         tie = ties.POLICIES[i % 4]
